@@ -4,7 +4,8 @@
    Client/Init.v on top of the shared store model Client/Store.v). *)
 From Coq Require Import List Bool NArith ZArith Permutation.
 Import ListNotations.
-From Setec Require Import Base.SMap Client.Store Client.StoreInv Client.Init Client.InitProofs.
+From Setec Require Import Base.SMap Client.Store Client.StoreInv Client.Init Client.InitProofs Client.InitFile Client.InitFileProofs.
+From Setec Require Server.DB Server.Http.
 
 Section C10.
 Variable V : Type.
@@ -188,6 +189,64 @@ Theorem C10_norm_names_spec : forall l : list name,
   (forall n, In n (norm_names l) <-> In n l) /\ NoDup (norm_names l).
 Proof. exact norm_names_spec. Qed.
 
+(* 12. File-backed client (model of NewFileClient's entry filter: Client/InitFile.v).
+   An entry of the file that does not denote a usable secret - empty name, no "secret", a version that is not
+   positive OR no value at all (neither Value nor TextValue) - is ABSENT for the store: Get and GetIfChanged
+   report not-found, every request of the init loop for it fails. *)
+Theorem C10_file_unusable_absent : forall (file : @smap name (fentry V)) (n : name) (e : fentry V),
+  sorted file -> find n file = Some e -> fc_usable n e = false ->
+  Http.fc_get (fc_db file) n = @Http.CNotFound V /\
+  (forall old, Http.fc_getifchanged (fc_db file) n old = @Http.CNotFound V) /\
+  forall j, a_res (file_script file n j) = None.
+Proof. exact (@file_unusable_absent V). Qed.
+
+(* a usable entry is served with its version and its bytes, the text before the binary value *)
+Theorem C10_file_usable_served : forall (file : @smap name (fentry V)) (n : name) (e : fentry V),
+  sorted file -> find n file = Some e -> fc_usable n e = true ->
+  exists b, fc_bytes e = Some b /\
+            Http.fc_get (fc_db file) n = Http.CResult (DB.RVal (fe_ver e) b) /\
+            forall j, a_res (file_script file n j) = Some (fe_ver e, b).
+Proof. exact (@file_usable_served V). Qed.
+
+(* every successful request of any construction carries an answer of the service script *)
+Theorem C10_answers_from_script : forall (c : config) (cache : option (@smap name (rentry V))) (w : world V) (fuel : nat)
+  (n : name) (ts te : N) (r : N * V),
+  In (EvReq n ts te (Some r)) (trace_of (new_store c cache w fuel)) -> exists j, a_res (w_script w n j) = Some r.
+Proof. exact (@answers_from_script V). Qed.
+
+(* with a file-backed client NewStore fails at once - one round, no sleep, each name asked at most once - when a
+   declared name the cache does not hold is absent from the file or is an unusable entry *)
+Theorem C10_file_fails_at_once : forall (c : config) (cache : option (@smap name (rentry V))) (w : world V) (fuel : nat)
+  (file : @smap name (fentry V)) (n : name),
+  c_client c = true -> names_ok (c_names c) (c_allow c) = true -> c_file c = true ->
+  order_ok w -> cache_sorted cache -> sorted file -> w_script w = file_script file ->
+  In n (c_names c) -> find n (cached c cache) = None ->
+  (find n file = None \/ exists e, find n file = Some e /\ fc_usable n e = false) ->
+  exists t tr, new_store c cache w (S fuel) = OFail t tr /\
+     (forall e, In e tr -> is_sleep e = false) /\ (forall k, (nreq k tr <= 1)%nat).
+Proof. exact (@file_fails_at_once V). Qed.
+
+(* it succeeds only if every declared name is cached or a usable entry, and then a name taken from the file is
+   held with exactly the file's version and bytes *)
+Theorem C10_file_success_values : forall (c : config) (cache : option (@smap name (rentry V))) (w : world V) (fuel : nat)
+  (file : @smap name (fentry V)) (s : store V) (t : N) (tr : list (ev V)) (fx : list (effect V)) (n : name),
+  order_ok w -> sorted file -> w_script w = file_script file ->
+  new_store c cache w fuel = OOk s t tr fx ->
+  In n (c_names c) -> find n (cached c cache) = None ->
+  exists e b te, find n file = Some e /\ fc_usable n e = true /\ fc_bytes e = Some b /\
+     find n (m s) = Some (Some (CE (fe_ver e) b (now_s w te) true)).
+Proof. exact (@file_success_values V). Qed.
+
+(* ... and if every declared name is cached or usable it does succeed, in the first round, whatever the context *)
+Theorem C10_file_succeeds : forall (c : config) (cache : option (@smap name (rentry V))) (w : world V) (fuel : nat)
+  (file : @smap name (fentry V)),
+  c_client c = true -> names_ok (c_names c) (c_allow c) = true ->
+  w_strict w = false -> sorted file -> w_script w = file_script file ->
+  (forall n, In n (c_names c) -> find n (cached c cache) = None ->
+             exists e, find n file = Some e /\ fc_usable n e = true) ->
+  exists s t tr fx, new_store c cache w (S fuel) = OOk s t tr fx.
+Proof. exact (@file_succeeds V). Qed.
+
 End C10.
 
 Print Assumptions C10_complete.
@@ -215,6 +274,12 @@ Print Assumptions C10_misconfig_no_secrets.
 Print Assumptions C10_misconfig_only.
 Print Assumptions C10_invalid_cache_ignored.
 Print Assumptions C10_norm_names_spec.
+Print Assumptions C10_file_unusable_absent.
+Print Assumptions C10_file_usable_served.
+Print Assumptions C10_answers_from_script.
+Print Assumptions C10_file_fails_at_once.
+Print Assumptions C10_file_success_values.
+Print Assumptions C10_file_succeeds.
 
 (* non-vacuity on concrete data (V := N).  Names a, b, c; b is declared twice; the cache holds a only;
    b fails twice then succeeds, c succeeds at once; requests take no time; the map is visited in key order. *)
@@ -288,3 +353,21 @@ Example C10_ex_wait_12 : wait_k 12 = 4096.
 Proof. vm_compute. reflexivity. Qed.
 Example C10_ex_wait_40 : wait_k 40 = 4096.
 Proof. vm_compute. reflexivity. Qed.
+
+(* file-backed client: a (usable), b (positive version, NO value - the entry an `||` -> `&&` slip would serve),
+   c (a value, version 0), d (text and binary value: the text wins) *)
+Definition nd : name := [100%N].
+Definition file0 : @smap name (fentry N) :=
+  [(na, FE true 3 (Some 30) None); (nb, FE true 2 None None); (nc, FE true 0 (Some 31) None); (nd, FE true 4 (Some 32) (Some 33))].
+Example C10_ex_file_db : fc_db file0 = [(na, (3, 30)); (nd, (4, 33))].
+Proof. vm_compute. reflexivity. Qed.
+Example C10_ex_file_sorted : sorted file0.
+Proof. repeat constructor; intros k' v' H; cbn in H; intuition (try congruence); match goal with H : _ = (k', v') |- _ => injection H as <- _ end; reflexivity. Qed.
+Definition wf0 : world N := WORLD (file_script file0) false None (fun _ l => l) 0%Z 0.
+Example C10_ex_file_fails :
+  new_store (CFG true true [na; nb] false false 0) None wf0 5 = OFail 0 [EvReq na 0 0 (Some (3, 30)); EvReq nb 0 0 None].
+Proof. vm_compute. reflexivity. Qed.
+Example C10_ex_file_ok :
+  exists s, new_store (CFG true true [nd; na] false false 0) None wf0 5
+            = OOk s 0 [EvReq na 0 0 (Some (3, 30)); EvReq nd 0 0 (Some (4, 33))] [].
+Proof. eexists. vm_compute. reflexivity. Qed.
